@@ -90,7 +90,7 @@ type c13World struct {
 }
 
 func newC13World() *c13World {
-	w := &c13World{a: VerifNewAnnounce(c13Ifaces), resp: map[string]*arpResponder{}, conns: map[string]*memConn{}}
+	w := &c13World{a: VerifNewAnnounceN(c13Ifaces, 4096), resp: map[string]*arpResponder{}, conns: map[string]*memConn{}}
 	for i, name := range c13Ifaces {
 		pc := newMemConn()
 		ifi := net.Interface{Index: 1, Name: "lo", HardwareAddr: c13OurMAC} // Addrs() of the loopback gives the IPv4 address arp.New wants
